@@ -301,15 +301,17 @@ func runC16(c *Ctx) {
 			if !ok {
 				continue
 			}
-			if k, isC := constOf(ret.Results[0]); isC && k == "true" {
+			if k, isC := constOf(ret.Results[0]); !isC || k == "true" {
+				// the condition under which true is returned: reaching the return with a true result
+				// (a result assembled from several exits is a phi; its formula is the disjunction
+				// over the exits that carry true)
 				fb := newFormulaBuilder()
 				fb.namer = namer
-				got := fb.reach(b)
+				var got BExpr = bAnd{[]BExpr{fb.reach(b), fb.formula(ret.Results[0])}}
 				want := bAnd{[]BExpr{bBool{"isnil(createErr)"}, bOr{[]BExpr{bNot{bBool{"isnil(statErr)"}}, mkOrd("age", ">=", "86400000000000")}}}}
 				ok2, why, _ := implies(got, want)
 				r.Check("C16.token", "acquireUploadToken/true only after a successful exclusive create", m.Pos(ret.Pos()), ok2, "return true ⇒ create succeeded ∧ (no token existed ∨ it was at least 24h old); "+why+" code: "+got.String())
-			} else if !isC {
-				r.Check("C16.token", "acquireUploadToken/non-constant result", m.Pos(ret.Pos()), false, "results must be the constants true/false")
+				r.Check("C16.token", "acquireUploadToken/result decided", m.Pos(ret.Pos()), len(fb.undec) == 0, "undecided parts: "+strings.Join(fb.undec, "; "))
 			}
 		}
 		for _, cs := range callsIn(acquire, "os.Remove") {
